@@ -134,6 +134,7 @@ def tlc(module, cfg, workers=None, timeout=900, env=None, simulate=None, depth=N
     """Run TLC on spec/<module>.tla with spec/<cfg>. Returns TlcResult. rc: 0 ok, 12 invariant violated, ...
     Lines that TLC prints as a quoted JSON string (PrintT(ToJson(..))) are collected: into the file export_to
     (one decoded JSON value per line) when given, else into result.records."""
+    _enough()
     tag = tag or (module + "-" + os.path.splitext(os.path.basename(cfg))[0])
     meta = os.path.join(WORK, "tlc", tag + "-%d" % os.getpid())
     shutil.rmtree(meta, ignore_errors=True)
@@ -280,6 +281,16 @@ def _sigeq(a, b):
     return a == b
 
 
+class StopEarly(Exception):
+    """Enough violations are established (the reporting cap is reached): the remaining stages of the check are not run."""
+
+
+def _enough():
+    ck = CURRENT
+    if ck is not None and len(ck.violations) >= 25 and os.environ.get("VERIF_RUN_TO_END", "") != "1":
+        raise StopEarly()
+
+
 CURRENT = None     # the Check of this process (bin/check finishes it when the check's own code fails after violations were found)
 
 
@@ -390,6 +401,7 @@ def workdir(name):
 def run_harness(exe, args, timeout=1200, env=None, stdin=None, cwd=None):
     """Run the conformance harness; returns (rc, stdout). A harness that dies is an InfraError unless the
     caller asked for crash observation (those commands fork internally and report Crash events)."""
+    _enough()
     e = dict(os.environ)
     e["VERIF_SEED"] = str(SEED)
     e["NIFLY_REPO"] = REPO
